@@ -244,7 +244,7 @@ func init() {
 		"verif:verifB64Lookup": func(ex *Exec, st *State, fn *ssa.Function, args []Value) Value {
 			s := args[0].(StringV)
 			for _, p := range st.b64 {
-				if len(p.chars) != len(s.B) {
+				if p.flt != nil || len(p.chars) != len(s.B) {
 					continue
 				}
 				same := true
@@ -263,6 +263,35 @@ func init() {
 				}
 			}
 			return TupleV{SliceV{}, ex.ctx.False}
+		},
+		"verif:verifFloatText": func(ex *Exec, st *State, fn *ssa.Function, args []Value) Value {
+			f := args[0].(*Term)
+			chars := make([]*Term, 8)
+			for i := range chars {
+				ex.b64seq++
+				chars[i] = ex.ctx.Var(fmt.Sprintf("fltc%d", ex.b64seq), BV(8))
+			}
+			st.b64 = append(st.b64, b64Pair{chars: chars, flt: f})
+			return StringV{B: chars}
+		},
+		"verif:verifFloatLookup": func(ex *Exec, st *State, fn *ssa.Function, args []Value) Value {
+			s := args[0].(StringV)
+			for _, p := range st.b64 {
+				if p.flt == nil || len(p.chars) != len(s.B) {
+					continue
+				}
+				same := true
+				for i := range s.B {
+					if s.B[i] != p.chars[i] {
+						same = false
+						break
+					}
+				}
+				if same {
+					return TupleV{p.flt, ex.ctx.True}
+				}
+			}
+			return TupleV{ex.ctx.F64Const(0), ex.ctx.False}
 		},
 		"verif:verifWatchMap": func(ex *Exec, st *State, fn *ssa.Function, args []Value) Value {
 			iv := args[0].(IfaceV)
